@@ -6,7 +6,8 @@ A case is an operation log
                                      ["add_edges_from", [[1, 3], [0, 2], [2, 3]], "list"],
                                      ["remove_edge", 2, 1]], "nx": {"mul": 2, "add": -1, "rev": true}}
 
-(``"L"``, ``"R"`` instead of ``"n"`` for BipartiteGraph).  run_case replays the log on
+(``"L"``, ``"R"`` instead of ``"n"`` for BipartiteGraph; ``["add_batch", pairs, "list"|"iter"|"tuple"]`` is
+add_edges_from judged without assuming an order of processing, see the batches section).  run_case replays the log on
 a fresh object and on the model of vlib/graphmodel.py (vertex count + Python set of
 edges) and compares every public view with the model after every step; at the end
 (and every 8th step) the networkx conversions are checked as well.
@@ -32,6 +33,9 @@ ASSUMPTIONS = [
     "gray: add_edges_from with a pair that must be refused has to raise ValueError; the edges of the list before "
     "that pair may be kept (the code is a plain loop over add_edge) or the whole call may be undone; anything else "
     "is a violation",
+    "batches sub-check (operation add_batch = add_edges_from): no order of processing and no atomicity is assumed; a "
+    "list with a pair that must be refused has to raise ValueError and may leave any subset of its legal pairs in "
+    "the graph (has_edge says which); every view must then agree with the former edges plus that subset",
     "gray: remove_edge of an edge that is not in the graph (including out-of-range arguments) and "
     "update_vertex_number(k) with 0 <= k <= n must leave the graph unchanged, silently or with ValueError",
     "has_edge / `in edges()` are expected to answer False for pairs with a vertex outside the graph (probed up to "
